@@ -53,6 +53,7 @@ fn c11_scripts() -> Vec<(&'static str, [Vec<Step>; 2])> {
     use Step::*;
     vec![
         ("fc-bidi", [vec![OpenBi, Write { slot: 0, n: 3 }, Write { slot: 0, n: 3 }, Shutdown { slot: 0 }], vec![AcceptBi, Write { slot: 0, n: 3 }]]),
+        ("fc-bidi-s", [vec![OpenBi, Write { slot: 0, n: 3 }, Shutdown { slot: 0 }], vec![AcceptBi, Write { slot: 0, n: 3 }]]),
         ("fc-uni", [vec![OpenUni, Write { slot: 0, n: 4 }, Write { slot: 0, n: 3 }], vec![AcceptUni]]),
         ("fc-uni-back", [vec![AcceptUni], vec![OpenUni, Write { slot: 0, n: 4 }, Write { slot: 0, n: 3 }, Shutdown { slot: 0 }]]),
         ("fc-two", [vec![OpenBi, OpenUni, Write { slot: 0, n: 4 }, Write { slot: 1, n: 4 }], vec![AcceptBi, AcceptUni]]),
@@ -185,7 +186,7 @@ pub fn run(args: &Args, prefix: &str) -> i32 {
                             let keep = match name {
                                 "fc-uni" => true,
                                 "fc-two" => i == 0,
-                                "fc-bidi" => i == 4,
+                                "fc-bidi-s" => i == 4,
                                 "fc-cancel" => i == 0 || i == 3,
                                 "fc-cancel-back" => i == 0,
                                 _ => false,
@@ -194,7 +195,7 @@ pub fn run(args: &Args, prefix: &str) -> i32 {
                                 continue;
                             }
                         }
-                        let d = if th || name.starts_with("fc-uni") { 1 } else { 0 };
+                        let d = if th || matches!(name, "fc-uni" | "fc-cancel") { 1 } else { 0 };
                         configs.push((format!("{name}-perm{i}-md{max_data}-d{d}"), mk(sc.clone(), i, max_data), d));
                     }
                 }
@@ -229,7 +230,7 @@ pub fn run(args: &Args, prefix: &str) -> i32 {
                         c.server.streams_bidi = sb;
                         c.server.streams_uni = su;
                         c.demand_concurrency = demand;
-                        let d = if th { 1 } else { 0 };
+                        let d = if th || name != "open-twice-bi" { 1 } else { 0 };
                         configs.push((format!("{name}-streams{sb}{su}-{}-d{d}", if demand { "demand" } else { "consistent" }), c, d));
                     }
                 }
